@@ -74,6 +74,9 @@ inductive Sp where
   | scls (d : FieldDecl) (len : Nat)
   /-- two-element tuples: `tuple[X, Y]` / `typing.Tuple[X, Y]` / `Tuple[X, Y]` / `Tuple(items=[X, Y])` -/
   | tup585 (x y : Sp) | tupTyping (x y : Sp) | tupSub (x y : Sp) | tupCall (x y : Sp)
+  /-- `X | 529` / `X | "abc"`: a Field on the left, a literal value on the right (documented: "a: Integer | Foo | str | 529");
+      `len` = length of the literal's source text -/
+  | pipeLit (x : Sp) (v : PyVal) (len : Nat)
 deriving Repr, Inhabited
 
 /-! ### Python objects that such expressions evaluate to -/
@@ -425,6 +428,12 @@ def ev (tm : TypeMap) : Sp → R Obj
     bindE (ev tm x) fun ox => bindE (ev tm y) fun oy =>
     bindE (tupleItem ox) fun dx => bindE (tupleItem oy) fun dy =>
     bindE (mkItems .tuple [dx, dy]) fun r => .ok (.finst r)
+  /- `_or_fields(first, other)` with `other` a str / int / float / bool value: `AnyOf[first, Enum(values=[other])]`;
+     every non-field left operand refuses a plain value (`int | 5`, `None | 5`, `Optional[int] | 5`: TypeError) -/
+  | .pipeLit x v _ =>
+    bindE (ev tm x) fun ox =>
+    if isFieldObj ox then bindE (getItem tm ox) fun dx => .ok (.finst (.anyOf [dx, .enumLit [v]]))
+    else .error .typeErr
 termination_by structural s => s
 
 /-! ### length of the annotation text (what `from __future__ import annotations` stores) -/
@@ -443,6 +452,7 @@ def Coll.clsLen : Coll → Nat
 
 def isPipe : Sp → Bool
   | .pipe _ _ => true
+  | .pipeLit _ _ _ => true
   | _ => false
 
 def annLen : Sp → Nat
@@ -473,6 +483,7 @@ def annLen : Sp → Nat
   | .tupTyping x y => 16 + annLen x + annLen y
   | .tupSub x y => 9 + annLen x + annLen y
   | .tupCall x y => 17 + annLen x + annLen y
+  | .pipeLit x _ n => annLen x + 3 + n
 
 /-! ### field and class level -/
 
